@@ -1393,3 +1393,276 @@ impl Shape for S20SubThenBare {
         }
     }
 }
+
+// ==== declared names that collide with the built-in help spellings ==========================
+// At HEAD the struct's own option arms come before the built-in `-h | --help` arm, so a field
+// that claims one of the spellings wins; the other spelling stays a help request. That is the
+// declared grammar encoded below (the reference tries option literals before help requests).
+
+// ---- S21 -----------------------------------------------------------------------------------
+/// DOC_S21HumanFlag_struct du style
+#[derive(ArgParse)]
+#[cli(help_path = "h-cli, du")]
+pub struct S21HumanFlag {
+    /// DOC_S21HumanFlag_human print sizes in powers of 1024
+    #[cli(short = "h", long = "human-readable")]
+    human: bool,
+    #[cli(short = "s")]
+    summarize: bool,
+    /// DOC_S21HumanFlag_path where to look
+    path: Option<&'static UnixStr>,
+}
+impl Shape for S21HumanFlag {
+    fn grammar() -> Grammar {
+        Grammar {
+            name: "S21HumanFlag",
+            doc: vec!["DOC_S21HumanFlag_struct"],
+            opts: vec![
+                o(&["-h", "--human-readable"], Kind::Flag, Ty::Str).d(&["DOC_S21HumanFlag_human"]),
+                o(&["-s"], Kind::Flag, Ty::Str),
+            ],
+            pos: vec![p("path", false, Ty::Unix).d(&["DOC_S21HumanFlag_path"])],
+            sub: None,
+            help: help::<Self>(),
+        }
+    }
+    fn to_val(&self) -> Val {
+        Val {
+            opts: vec![FV::Flag(self.human), FV::Flag(self.summarize)],
+            pos: vec![self.path.map(u)],
+            sub: None,
+        }
+    }
+}
+
+// ---- S22 -----------------------------------------------------------------------------------
+// both built-in spellings claimed by valued fields: no help request is left at this level
+#[derive(ArgParse)]
+#[cli(help_path = "h-cli, connect")]
+pub struct S22HostValued {
+    /// DOC_S22HostValued_host where to connect
+    #[cli(short = "h", long = "host")]
+    host: String,
+    #[cli(short = "p", long = "port")]
+    port: Option<u16>,
+    /// DOC_S22HostValued_topic topic to explain
+    #[cli(long = "help")]
+    topic: Option<&'static str>,
+}
+impl Shape for S22HostValued {
+    fn grammar() -> Grammar {
+        Grammar {
+            name: "S22HostValued",
+            doc: vec![],
+            opts: vec![
+                o(&["-h", "--host"], Kind::Req, Ty::Str).d(&["DOC_S22HostValued_host"]),
+                o(&["-p", "--port"], Kind::Opt, INT_U16),
+                o(&["--help"], Kind::Opt, Ty::Str).d(&["DOC_S22HostValued_topic"]),
+            ],
+            pos: vec![],
+            sub: None,
+            help: help::<Self>(),
+        }
+    }
+    fn to_val(&self) -> Val {
+        Val {
+            opts: vec![
+                FV::One(Some(s(&self.host))),
+                FV::One(self.port.map(i)),
+                FV::One(self.topic.map(s)),
+            ],
+            pos: vec![],
+            sub: None,
+        }
+    }
+}
+
+// ---- S23 -----------------------------------------------------------------------------------
+// `--help` claimed by a flag, `-h` stays the help request; short aliases that are the first
+// letter of another field's long name
+#[derive(ArgParse)]
+pub struct S23LongHelpFlag {
+    #[cli(long = "help")]
+    help: bool,
+    /// DOC_S23LongHelpFlag_verbose chatty
+    #[cli(short = "v", long = "verbose")]
+    verbose: bool,
+    /// DOC_S23LongHelpFlag_version which version to use
+    #[cli(long = "version")]
+    version: Option<i32>,
+    #[cli(short = "n", long = "name")]
+    name: Option<&'static str>,
+    #[cli(long = "number")]
+    number: Vec<i64>,
+    word: Option<String>,
+}
+impl Shape for S23LongHelpFlag {
+    fn grammar() -> Grammar {
+        Grammar {
+            name: "S23LongHelpFlag",
+            doc: vec![],
+            opts: vec![
+                o(&["--help"], Kind::Flag, Ty::Str),
+                o(&["-v", "--verbose"], Kind::Flag, Ty::Str).d(&["DOC_S23LongHelpFlag_verbose"]),
+                o(&["--version"], Kind::Opt, INT_I32).d(&["DOC_S23LongHelpFlag_version"]),
+                o(&["-n", "--name"], Kind::Opt, Ty::Str),
+                o(&["--number"], Kind::Rep, INT_I64),
+            ],
+            pos: vec![p("word", false, Ty::Str)],
+            sub: None,
+            help: help::<Self>(),
+        }
+    }
+    fn to_val(&self) -> Val {
+        Val {
+            opts: vec![
+                FV::Flag(self.help),
+                FV::Flag(self.verbose),
+                FV::One(self.version.map(i)),
+                FV::One(self.name.map(s)),
+                FV::Many(self.number.iter().map(|x| i(*x)).collect()),
+            ],
+            pos: vec![self.word.as_deref().map(s)],
+            sub: None,
+        }
+    }
+}
+
+// ---- S24 -----------------------------------------------------------------------------------
+// the same inside a struct with a subcommand (other branch of the generator) and inside the
+// struct of a subcommand variant
+#[derive(ArgParse)]
+#[cli(help_path = "h-cli, img")]
+pub struct S24HelpNamesWithCommand {
+    /// DOC_S24HelpNamesWithCommand_human human readable sizes
+    #[cli(short = "h", long = "human")]
+    human: bool,
+    #[cli(long = "help")]
+    help_level: Option<i32>,
+    /// DOC_S24HelpNamesWithCommand_cmd what to do
+    #[cli(subcommand)]
+    cmd: Cmd24,
+}
+#[derive(Subcommand, Debug)]
+pub enum Cmd24 {
+    /// DOC_Cmd24_Show display it
+    Show(Show24),
+    Hide,
+    /// DOC_Cmd24_Resize change size
+    Resize(Resize24),
+}
+#[derive(ArgParse, Debug)]
+#[cli(help_path = "h-cli, img, show")]
+pub struct Show24 {
+    /// DOC_Show24_height rows
+    #[cli(short = "h")]
+    height: Option<u8>,
+    #[cli(short = "w", long = "width")]
+    width: Option<u8>,
+    #[cli(long = "wide")]
+    wide: bool,
+    name: &'static str,
+}
+#[derive(ArgParse, Debug)]
+#[cli(help_path = "h-cli, img, resize")]
+pub struct Resize24 {
+    /// DOC_Resize24_help print the old size too
+    #[cli(short = "h", long = "help")]
+    both: bool,
+    #[cli(subcommand)]
+    how: Option<How24>,
+}
+#[derive(Subcommand, Debug)]
+pub enum How24 {
+    Half,
+    Double,
+}
+impl Shape for Show24 {
+    fn grammar() -> Grammar {
+        Grammar {
+            name: "Show24",
+            doc: vec![],
+            opts: vec![
+                o(&["-h"], Kind::Opt, INT_U8).d(&["DOC_Show24_height"]),
+                o(&["-w", "--width"], Kind::Opt, INT_U8),
+                o(&["--wide"], Kind::Flag, Ty::Str),
+            ],
+            pos: vec![p("name", true, Ty::Str)],
+            sub: None,
+            help: help::<Self>(),
+        }
+    }
+    fn to_val(&self) -> Val {
+        Val {
+            opts: vec![
+                FV::One(self.height.map(i)),
+                FV::One(self.width.map(i)),
+                FV::Flag(self.wide),
+            ],
+            pos: vec![Some(s(self.name))],
+            sub: None,
+        }
+    }
+}
+impl Shape for Resize24 {
+    fn grammar() -> Grammar {
+        Grammar {
+            name: "Resize24",
+            doc: vec![],
+            opts: vec![o(&["-h", "--help"], Kind::Flag, Ty::Str).d(&["DOC_Resize24_help"])],
+            pos: vec![],
+            sub: Some(Sub {
+                optional: true,
+                field_doc: vec![],
+                var_docs: vec![vec![], vec![]],
+                vars: vec![("half", None), ("double", None)],
+            }),
+            help: help::<Self>(),
+        }
+    }
+    fn to_val(&self) -> Val {
+        Val {
+            opts: vec![FV::Flag(self.both)],
+            pos: vec![],
+            sub: self.how.as_ref().map(|h| match h {
+                How24::Half => (0, None),
+                How24::Double => (1, None),
+            }),
+        }
+    }
+}
+impl Shape for S24HelpNamesWithCommand {
+    fn grammar() -> Grammar {
+        Grammar {
+            name: "S24HelpNamesWithCommand",
+            doc: vec![],
+            opts: vec![
+                o(&["-h", "--human"], Kind::Flag, Ty::Str).d(&["DOC_S24HelpNamesWithCommand_human"]),
+                o(&["--help"], Kind::Opt, INT_I32),
+            ],
+            pos: vec![],
+            sub: Some(Sub {
+                optional: false,
+                field_doc: vec!["DOC_S24HelpNamesWithCommand_cmd"],
+                var_docs: vec![vec!["DOC_Cmd24_Show"], vec![], vec!["DOC_Cmd24_Resize"]],
+                vars: vec![
+                    ("show", Some(Show24::grammar())),
+                    ("hide", None),
+                    ("resize", Some(Resize24::grammar())),
+                ],
+            }),
+            help: help::<Self>(),
+        }
+    }
+    fn to_val(&self) -> Val {
+        Val {
+            opts: vec![FV::Flag(self.human), FV::One(self.help_level.map(i))],
+            pos: vec![],
+            sub: Some(match &self.cmd {
+                Cmd24::Show(x) => (0, Some(Box::new(x.to_val()))),
+                Cmd24::Hide => (1, None),
+                Cmd24::Resize(x) => (2, Some(Box::new(x.to_val()))),
+            }),
+        }
+    }
+}
